@@ -18,16 +18,25 @@ import (
 )
 
 type simReaderAt struct {
-	b     []byte
-	yield func(string)
-	gate  func(off int64)      // called before a read is served (stalled reads)
-	fail  func(off int64) bool // true: this read fails with ErrInjected
+	b       []byte
+	yield   func(string)
+	gate    func(off int64)      // called before a read is served (stalled reads)
+	fail    func(off int64) bool // true: this read fails with ErrInjected
+	partial bool                 // failing reads deliver half of the bytes asked for along with the error
 }
 
 func (r *simReaderAt) ReadAt(p []byte, off int64) (int, error) {
 	// the fate of a read is decided when it is issued: one that was on its way when the
 	// connection died still delivers, however late
 	failed := r.fail != nil && r.fail(off)
+	if failed && r.partial && len(p) > 1 && off < int64(len(r.b)) {
+		// part of what was asked for arrives, then the error
+		n := copy(p[:len(p)/2], r.b[off:])
+		if r.yield != nil {
+			r.yield("zip.ReadAt")
+		}
+		return n, ErrInjected
+	}
 	if r.yield != nil {
 		r.yield("zip.ReadAt")
 	}
@@ -54,6 +63,22 @@ func genArchiveTree(rt *rapid.T) Tree {
 		d := []string{"s", "s/t", "u"}[i%3]
 		sz := []int{0, 1, 10, 300, 5000}[(i*7)%5]
 		t[fmt.Sprintf("%s/small%03d", d, i)] = &Entry{Kind: KFile, Data: Bytes(uint64(i)*31+5, sz)}
+	}
+	if rapid.IntRange(0, 3).Draw(rt, "siblingnames") == 0 {
+		// entries whose names differ by a suffix that programs like to use for their own temporary
+		// or backup files
+		k := rapid.IntRange(1, 3).Draw(rt, "nsiblings")
+		for i := 0; i < k; i++ {
+			suf := rapid.SampledFrom([]string{".tmp", ".tmp", ".part", "~", ".new", ".bak", ".old", ".0"}).Draw(rt, "sibsuffix")
+			base := fmt.Sprintf("sib/x%d", i)
+			t[base] = &Entry{Kind: KFile, Data: Bytes(uint64(i)+900, []int{0, 10, 70000, 200 * KiB}[rapid.IntRange(0, 3).Draw(rt, "sibsize")])}
+			if rapid.IntRange(0, 3).Draw(rt, "sibdir") == 0 {
+				t[base+suf+"/inner"] = &Entry{Kind: KFile, Data: Bytes(uint64(i)+950, 100)}
+			} else {
+				t[base+suf] = &Entry{Kind: KFile, Data: Bytes(uint64(i)+970, []int{0, 10, 3000}[rapid.IntRange(0, 2).Draw(rt, "sibsize2")])}
+			}
+		}
+		Ev.Probe("sibling_entries_named_X_and_X_plus_suffix")
 	}
 	return t.Normalize()
 }
@@ -124,6 +149,15 @@ func TestC19(t *testing.T) {
 		defer cleanup()
 		src := filepath.Join(dir, "src")
 		Must(tree.Materialize(src), "materialize")
+		// where the tree is extracted to is the caller's business: the path may lead through a
+		// symbolic link (a mounted volume, "current -> releases/42")
+		destBase := dir
+		if rapid.IntRange(0, 3).Draw(rt, "destthroughlink") == 0 {
+			Must(os.MkdirAll(filepath.Join(dir, "volume"), 0o755), "mkdir volume")
+			Must(os.Symlink("volume", filepath.Join(dir, "mnt")), "symlink mnt")
+			destBase = filepath.Join(dir, "mnt")
+			Ev.Probe("destination_path_leads_through_a_symlink")
+		}
 		wantD, wantF, wantL := kindCounts(tree)
 		// sometimes something that cannot be archived sits in the middle of the directory (a unix
 		// socket node): the compressor may refuse with an error - or leave it out - but it must not
@@ -146,7 +180,7 @@ func TestC19(t *testing.T) {
 			}
 			tarPath := filepath.Join(dir, "a.tar")
 			Must(os.WriteFile(tarPath, buf.Bytes(), 0o644), "write tar")
-			out := filepath.Join(dir, "untar")
+			out := filepath.Join(destBase, "untar")
 			var res *archiver.ExtractResult
 			var err error
 			if p := Recover(func() { res, err = archiver.ExtractTar(tarPath, out, archiver.ExtractSettings{Consumer: Quiet()}) }); p != "" || err != nil {
@@ -227,7 +261,7 @@ func TestC19(t *testing.T) {
 			}
 		}
 		tearMode := rapid.IntRange(0, 4).Draw(rt, "tear")
-		out := filepath.Join(dir, "out")
+		out := filepath.Join(destBase, "out")
 		resume := filepath.Join(dir, "resume.txt")
 
 		type crash struct {
@@ -389,8 +423,13 @@ func TestC19(t *testing.T) {
 				}
 				// (once the connection is gone, it is gone for every read of that source)
 				dead := false
+				onlyThere := kinds[failEntry] == KLink // a symlink's few bytes: the error stays local to them
+				ra.partial = rapid.Bool().Draw(rt, "partialfail")
 				ra.fail = func(off int64) bool {
 					if off >= lo && off < hi {
+						if onlyThere {
+							return true
+						}
 						dead = true
 					}
 					return dead
@@ -421,6 +460,13 @@ func TestC19(t *testing.T) {
 				restartFinished = true
 			}
 		})
+		if failEntry >= 0 && !retried && !s.BudgetExceeded && !s.Stuck && s.Panic == "" && xerr == nil {
+			// the source failed inside an entry and ExtractZip says everything went fine
+			if d := tree.Diff(MustSnapshot(out).Tree); d != "" {
+				Violation(rt, "C19/source-error-swallowed", "the source failed while entry %d was read, ExtractZip returned nil, and the tree is wrong: %s (%d entries, concurrency %d)", failEntry, d, len(kinds), conc)
+				return
+			}
+		}
 		if retried && !s.BudgetExceeded && !s.Stuck && s.Panic == "" {
 			if xerr != nil {
 				Violation(rt, "C19/resume-failed", "ExtractZip started over after a source error (entry %d) failed: %v", failEntry, xerr)
@@ -471,7 +517,7 @@ func TestC19(t *testing.T) {
 			// the process died at the snapshot: build the crash state and restart
 			restarted = true
 			rng := NewRng(spec.Seed ^ uint64(crashAt))
-			out2 := filepath.Join(dir, "out2")
+			out2 := filepath.Join(destBase, "out2")
 			crashTree := cr.disk.Tree.Clone()
 			torn := 0
 			if tearMode >= 2 {
